@@ -98,7 +98,12 @@ def w_extxyz(m, lay, rng, variant):
     lines = [str(m.natom), f'Lattice="{lat}" Properties=species:S:1:pos:R:3:masses:R:1 charge=-1.0 pbc="T T T"']
     for s, r, ms in zip(m.sym, m.xyz, m.masses):
         lines.append(f"{s:<3s} {r[0]:16.8f} {r[1]:16.8f} {r[2]:16.8f} {ms:14.8f}")
-    return "m.extxyz", "\n".join(lines) + "\n", {"atnums": m.z, "atcoords": m.xyz, "cellvecs": m.cell, "atmasses": m.masses, "charge": -1.0}
+    exp = {"atnums": m.z, "atcoords": m.xyz, "cellvecs": m.cell, "atmasses": m.masses, "charge": -1.0}
+    if variant == "noprops":
+        # without a Properties key the atom lines have the plain XYZ columns (species and position)
+        lines = [str(m.natom), f'Lattice="{lat}" charge=-1.0 pbc="T T T"'] + [f"{s:<3s} {r[0]:16.8f} {r[1]:16.8f} {r[2]:16.8f}" for s, r in zip(m.sym, m.xyz)]
+        del exp["atmasses"]
+    return "m.extxyz", "\n".join(lines) + "\n", exp
 
 
 def w_sdf(m, lay, rng, variant):
@@ -961,7 +966,7 @@ WRITERS = {"xyz": w_xyz, "extxyz": w_extxyz, "sdf": w_sdf, "pdb": w_pdb, "gromac
            "gaussianinput": w_gaussianinput, "json_qcschema": w_json, "fchk": w_fchk, "gaussianlog": w_gaussianlog,
            "orcalog": w_orcalog, "gamess": w_gamess, "qchemlog": w_qchemlog, "wfx": w_wfx, "mwfn": w_mwfn, "cp2klog": w_cp2klog}
 VARIANTS = {"xyz": ["plain", "numbers"], "poscar": ["direct", "cartesian", "selective", "scaled", "repeated", "volume"], "cube": ["five", "ragged", "six", "one", "nval"],
-            "gromacs": ["rect", "triclinic", "novel", "novel_triclinic"], "mol2": ["plain", "statusbits", "blanks"], "json_qcschema": ["plain", "massnumbers"], "gaussianlog": ["plain", "twoel"], "orcalog": ["plain", "opt", "longscf"], "gamess": ["plain", "opt"],
+            "gromacs": ["rect", "triclinic", "novel", "novel_triclinic"], "mol2": ["plain", "statusbits", "blanks"], "extxyz": ["plain", "noprops"], "json_qcschema": ["plain", "massnumbers"], "gaussianlog": ["plain", "twoel"], "orcalog": ["plain", "opt", "longscf"], "gamess": ["plain", "opt"],
             "qchemlog": ["plain", "unrestricted", "freq"], "wfx": ["plain", "gradient", "gradient_permuted"], "fchk": ["plain", "shuffled"],
             "gaussianinput": ["plain", "route_units", "route_long"], "fcidump": ["plain", "upper"], "mwfn": ["plain", "ecp"], "chgcar": ["plain", "lefthanded"], "locpot": ["plain", "lefthanded"],
             "cp2klog": ["ae_con", "pp_con", "ae_unc", "pp_unc", "ae_con_u", "pp_unc_u", "ae_unc_u", "pp_con_u"]}
